@@ -6,6 +6,7 @@ pub mod c08;
 pub mod c10;
 pub mod c12;
 pub mod c14;
+pub mod c17;
 pub mod c19;
 pub mod c20;
 
@@ -24,6 +25,7 @@ pub fn table() -> Vec<(&'static str, CheckFn, ReplayFn)> {
         ("C10", c10::check, c10::replay),
         ("C12", c12::check, c12::replay),
         ("C14", c14::check, c14::replay),
+        ("C17", c17::check, c17::replay),
         ("C19", c19::check, c19::replay),
         ("C20", c20::check, c20::replay),
     ]
